@@ -164,12 +164,14 @@ func (rg *RuleGroup) Eval(phase types.RulePhase, tx *Transaction) bool {
 	for k := range transformationCache {
 		delete(transformationCache, k)
 	}
+	verifPhase(tx, phase, "begin")
 RulesLoop:
 	for i := range rg.rules {
 		r := &rg.rules[i]
 		// if there is already an interruption and the phase isn't logging
 		// we break the loop
 		if tx.IsInterrupted() && phase != types.PhaseLogging {
+			verifRule(tx, phase, i, r, "interruptBreak")
 			break RulesLoop
 		}
 		// Rules with phase 0 will always run
@@ -190,6 +192,7 @@ RulesLoop:
 
 		// we skip the rule in case it's in the excluded list
 		if _, skip := tx.ruleRemoveByID[r.ID_]; skip {
+			verifRule(tx, phase, i, r, "removed")
 			tx.DebugLogger().Debug().
 				Int("rule_id", r.ID_).
 				Msg("Skipping rule")
@@ -197,6 +200,7 @@ RulesLoop:
 		}
 		for _, rng := range tx.ruleRemoveByIDRanges {
 			if r.ID_ >= rng[0] && r.ID_ <= rng[1] {
+				verifRule(tx, phase, i, r, "removed")
 				tx.DebugLogger().Debug().
 					Int("rule_id", r.ID_).
 					Msg("Skipping rule")
@@ -206,8 +210,10 @@ RulesLoop:
 
 		// we always evaluate secmarkers
 		if tx.SkipAfter != "" {
+			verifRule(tx, phase, i, r, "pendingMarker")
 			if r.SecMark_ == tx.SkipAfter {
 				tx.SkipAfter = ""
+	verifPhase(tx, phase, "end")
 			} else {
 				tx.DebugLogger().Debug().
 					Int("rule_id", r.ID_).
@@ -218,6 +224,7 @@ RulesLoop:
 			continue
 		}
 		if tx.Skip > 0 {
+			verifRule(tx, phase, i, r, "skipCounter")
 			tx.Skip--
 			// Skipping rule
 			continue
@@ -231,6 +238,7 @@ RulesLoop:
 			tx.DebugLogger().Debug().
 				Int("phase", int(phase)).
 				Msg("Skipping phase because of allow phase action")
+			verifRule(tx, phase, i, r, "allowBreak")
 			break RulesLoop
 		case corazatypes.AllowTypeRequest:
 			// Allow request requires skipping all rules of any request phase.
@@ -241,16 +249,19 @@ RulesLoop:
 				Msg("Skipping phase because of allow request action")
 			if phase == types.PhaseRequestHeaders {
 				// tx.AllowType is not resetted because another request phase might be called
+				verifRule(tx, phase, i, r, "allowBreak")
 				break RulesLoop
 			}
 			if phase == types.PhaseRequestBody {
 				// // tx.AllowType is resetted, currently PhaseRequestBody is the last request phase
 				tx.AllowType = corazatypes.AllowTypeUnset
+				verifRule(tx, phase, i, r, "allowBreak")
 				break RulesLoop
 			}
 		case corazatypes.AllowTypeAll:
 			// allow skips all the remaining phases but the logging one, which always runs
 			if phase != types.PhaseLogging {
+				verifRule(tx, phase, i, r, "allowBreak")
 				break RulesLoop
 			}
 		}
@@ -262,6 +273,7 @@ RulesLoop:
 		}
 
 		r.Evaluate(phase, tx, transformationCache)
+		verifRule(tx, phase, i, r, "evaluated")
 		tx.Capture = false // we reset captures
 		usedRules++
 	}
